@@ -11,7 +11,7 @@ use std::time::Duration;
 use vcore::{prop_search, Outcome, Run, Search};
 use wire::*;
 
-const RULE: &str = "end-to-end: histories of 1..5 connection-level events sent by the raw peer on either role — answer of the raw server to the client's CONNECT in {HEADERS, GREASE / unknown frame then HEADERS, DATA first, SETTINGS first, WT signal first, any frame truncated by FIN}; control stream opened with {valid SETTINGS, DATA first, HEADERS first, GREASE first, reserved setting id, duplicated setting id}; then {duplicate control stream, QPACK encoder/decoder stream (+ duplicate), unknown / GREASE uni stream, FIN or RESET of a critical stream, a frame of any type (DATA, HEADERS, SETTINGS, GREASE, unknown, WT signal) cut short by FIN inside its type, inside its length, right after its length or inside its payload on the control stream / as first frame of a new bidi stream / on the session stream, uni stream finished or reset inside its type varint, DATA / HEADERS / second SETTINGS / oversize / GREASE frame on the control stream, request whose first frame is DATA or SETTINGS, GET request, CONNECT without :protocol, WT streams with valid and invalid session ids, GREASE then WT signal on a bidi stream, SETTINGS / HEADERS / WT signal / GREASE on the established session stream}. Reference model (RFC 9114 §4.1, §6.2, §6.2.1, §7.2.x, RFC 9204 §4.2, WT draft): each event maps to continue / refuse that stream (code) / close the connection (admissible code set). Oracle: the first closing event decides the CONNECTION_CLOSE code seen by the raw peer and the local API error; histories without a closing event leave the session usable (fresh stream echo), and refused requests carry the prescribed STOP_SENDING code. Non-trivial: the history contains an event whose prescribed reaction is not 'continue'; distinct = distinct history";
+const RULE: &str = "end-to-end: histories of 1..5 connection-level events sent by the raw peer on either role — answer of the raw server to the client's CONNECT in {HEADERS, GREASE / unknown frame then HEADERS, DATA first, SETTINGS first, WT signal first, any frame truncated by FIN}; control stream opened with {valid SETTINGS, DATA first, HEADERS first, GREASE first, reserved setting id, duplicated setting id}; then {duplicate control stream, QPACK encoder/decoder stream (+ duplicate), unknown / GREASE uni stream, FIN or RESET of a critical stream, STOP_SENDING on the endpoint's own control stream, a frame of any type (DATA, HEADERS, SETTINGS, GREASE, unknown, WT signal) cut short by FIN inside its type, inside its length, right after its length or inside its payload on the control stream / as first frame of a new bidi stream / on the session stream, uni stream finished or reset inside its type varint, DATA / HEADERS / second SETTINGS / oversize / GREASE frame on the control stream, request whose first frame is DATA or SETTINGS, GET request, CONNECT without :protocol, WT streams with valid and invalid session ids, GREASE then WT signal on a bidi stream, SETTINGS / HEADERS / WT signal / GREASE on the established session stream}. Reference model (RFC 9114 §4.1, §6.2, §6.2.1, §7.2.x, RFC 9204 §4.2, WT draft): each event maps to continue / refuse that stream (code) / close the connection (admissible code set). Oracle: the first closing event decides the CONNECTION_CLOSE code seen by the raw peer and the local API error; histories without a closing event leave the session usable (fresh stream echo), and refused requests carry the prescribed STOP_SENDING code. Non-trivial: the history contains an event whose prescribed reaction is not 'continue'; distinct = distinct history";
 
 #[derive(Clone, Debug, Serialize, Deserialize, PartialEq)]
 pub enum Ev {
@@ -21,6 +21,8 @@ pub enum Ev {
     UnknownUni(u64),
     FinControl,
     ResetControl,
+    /// STOP_SENDING on the endpoint's own control stream
+    StopLocalControl,
     FinQpackEnc,
     UniFinInsideType,
     UniResetInsideType,
@@ -122,7 +124,7 @@ impl Model {
                 }
             }
             Ev::UnknownUni(_) => Continue,
-            Ev::FinControl | Ev::ResetControl => Close(vec![reg::H3_CLOSED_CRITICAL_STREAM]),
+            Ev::FinControl | Ev::ResetControl | Ev::StopLocalControl => Close(vec![reg::H3_CLOSED_CRITICAL_STREAM]),
             Ev::FinQpackEnc => {
                 if self.qenc {
                     Close(vec![reg::H3_CLOSED_CRITICAL_STREAM])
@@ -211,6 +213,7 @@ fn ev_strategy() -> impl Strategy<Value = Ev> {
         prop_oneof![Just(0x3fu64), Just(0x04), Just(0x21), Just(0x4242), (6u64..1 << 40).prop_filter("not wt", |t| *t != 0x54)].prop_map(Ev::UnknownUni),
         Just(Ev::FinControl),
         Just(Ev::ResetControl),
+        Just(Ev::StopLocalControl),
         Just(Ev::FinQpackEnc),
         Just(Ev::UniFinInsideType),
         Just(Ev::UniResetInsideType),
@@ -342,6 +345,7 @@ struct Peer {
     qenc: Option<quinn::SendStream>,
     session: u64,
     held: Vec<Box<dyn std::any::Any + Send>>,
+    local_control: Option<quinn::RecvStream>,
 }
 
 impl Peer {
@@ -379,6 +383,28 @@ impl Peer {
             }
             Ev::ResetControl => {
                 let _ = self.control.reset(vi(0));
+            }
+            Ev::StopLocalControl => {
+                if self.local_control.is_none() {
+                    let conn = self.conn.clone();
+                    let find = async {
+                        loop {
+                            let Ok(mut r) = conn.accept_uni().await else { return None };
+                            let mut b = [0u8; 1];
+                            if let Ok(()) = r.read_exact(&mut b).await {
+                                if b[0] == 0x00 {
+                                    return Some(r);
+                                }
+                            }
+                        }
+                    };
+                    if let Ok(Some(r)) = tokio::time::timeout(Duration::from_secs(3), find).await {
+                        self.local_control = Some(r);
+                    }
+                }
+                if let Some(r) = self.local_control.as_mut() {
+                    let _ = r.stop(vi(0x10c));
+                }
             }
             Ev::FinQpackEnc => {
                 if let Some(s) = self.qenc.as_mut() {
@@ -552,7 +578,7 @@ async fn exec_async(case: Arc<Case>) -> CaseResult {
                 establish_err = Some("timeout".into());
             }
         }
-        peer = Peer { conn, control, req_send: Some(rs), qenc: None, session: sid, held: vec![Box::new(rr)] };
+        peer = Peer { conn, control, req_send: Some(rs), qenc: None, session: sid, held: vec![Box::new(rr)], local_control: None };
         _keep = Box::new((server_ep, ep));
     } else {
         let (raw_ep, addr) = match raw_server(&t) {
@@ -604,7 +630,7 @@ async fn exec_async(case: Arc<Case>) -> CaseResult {
                 establish_err = Some("timeout".into());
             }
         }
-        peer = Peer { conn, control, req_send: rs, qenc: None, session: sid, held: vec![Box::new(rr)] };
+        peer = Peer { conn, control, req_send: rs, qenc: None, session: sid, held: vec![Box::new(rr)], local_control: None };
         _keep = Box::new((client_ep, raw_ep));
     }
     let mut labels: Vec<&'static str> = vec![if case.wt_is_server { "role:server" } else { "role:client" }];
@@ -745,7 +771,7 @@ pub fn run(run: &Run) {
     run.trust("reaction table in echecks/src/c12.rs transcribed from RFC 9114 §4.1, §6.2, §6.2.1, §7.2.x, RFC 9204 §4.2 and draft-ietf-webtrans-http3 (sets where the specifications overlap)");
     // every single event once, on both roles
     let singles = [
-        Ev::DuplicateControl, Ev::QpackEnc, Ev::QpackDec, Ev::UnknownUni(0x3f), Ev::FinControl, Ev::ResetControl, Ev::UniFinInsideType, Ev::UniResetInsideType, Ev::UniFinBeforeAnyByte,
+        Ev::DuplicateControl, Ev::QpackEnc, Ev::QpackDec, Ev::UnknownUni(0x3f), Ev::FinControl, Ev::ResetControl, Ev::StopLocalControl, Ev::UniFinInsideType, Ev::UniResetInsideType, Ev::UniFinBeforeAnyByte,
         Ev::ControlData, Ev::ControlHeaders, Ev::ControlSecondSettings, Ev::ControlOversize, Ev::ControlGrease, Ev::ControlTruncatedThenFin, Ev::RequestDataFirst, Ev::RequestSettingsFirst,
         Ev::RequestGet, Ev::RequestNoProtocol, Ev::WtUniValid, Ev::WtUniInvalid(1), Ev::WtUniInvalid(2), Ev::WtUniInvalid(3), Ev::WtBiValid, Ev::WtBiInvalid(1), Ev::WtBiInvalid(2), Ev::WtBiInvalid(3),
         Ev::BiGreaseThenWt, Ev::SessionSettings, Ev::SessionHeaders, Ev::SessionWtSignal, Ev::SessionGrease,
